@@ -116,6 +116,20 @@ def table_variants(src) -> List[Dict[str, Any]]:
             dict(src, tables=[widen(t, k) for k, t in enumerate(src['tables'])])]
 
 
+def without_row_ids(v):
+    """a scan dump / model answer (any nesting) with the `id` of every table ROW removed: a row is recognised as an
+    entry of a table's `rows` list (dump_table / Drv.Doc.jRow: id, coords, cells, column_cells, row_idx)"""
+    if isinstance(v, list):
+        return [without_row_ids(x) for x in v]
+    if isinstance(v, dict):
+        out = {k: without_row_ids(x) for k, x in v.items()}
+        if isinstance(out.get('rows'), list):
+            out['rows'] = [{k: x for k, x in r.items() if k != 'id'} if isinstance(r, dict) and 'row_idx' in r else r
+                           for r in out['rows']]
+        return out
+    return v
+
+
 class C08(DocCheck):
     pid = 'C08'
     model_pid = 'C08'
@@ -141,7 +155,9 @@ class C08(DocCheck):
         'correspondence: tables whose cells are NOT listed in row-major order (pairs (row, col) strictly ascending in file '
         'order) or that have no complete row, and mutated tables that are no conformant TableRegion any more, are outside the '
         'quantifier — the model (which mirrors first-occurrence grouping) is still run on them but a difference is recorded '
-        'in the evidence only; two rejections agree whatever the exception class; extra scan.metadata keys are ignored. '
+        'in the evidence only; two rejections agree whatever the exception class; extra scan.metadata keys are ignored; the '
+        'rows of a table are compared without their id (no clause reads the id of a row: PageXML has no row element; '
+        'row_idx, coordinates, cells and column_cells of every row stay compared exactly). '
         'Histories (wave 4): every document is parsed a second and a third time in the same process, its tables are read '
         'again after shape / values / [r][c] / stats / the JSON round trip were taken once, and documents whose tables '
         'have the same ids but another shape (one row only; one more and wider row) are parsed in between — each look is '
@@ -290,6 +306,15 @@ class C08(DocCheck):
 
     def nontrivial(self, case: Case) -> bool:
         return any(len(t['cells']) >= 2 for t in case.input['src']['tables'])
+
+    # ---------------------------------------------------------------- correspondence: rows without their id
+    def compare(self, case, impl_out, model_out):
+        # PageXML has no row element: a PageXMLTableRow is derived from the cells, and no clause of the statement reads
+        # its id ("one row per distinct row index", shape, [r][c], values, counts, "cell lines keep their ids, text and
+        # coordinates", "shape and values survive the JSON round trip" — the ids named are those of cell LINES; the row
+        # index is observed as row_idx and through the position in table.rows).  So the rows of the parsed tables are
+        # compared without their id — everything else of a row (row_idx, coordinates, cells, column_cells) exactly.
+        return super().compare(case, dict(impl_out, real=without_row_ids(impl_out.get('real'))), without_row_ids(model_out))
 
     # ---------------------------------------------------------------- implementation: the document, then a history
     def impl(self, case: Case) -> Any:
